@@ -20,6 +20,9 @@ PrdSeqM(s) == FoldSeq(LAMBDA a, b : IF E.kind = "fld" THEN (a * b) % E.P ELSE a 
 Keep(R) == IF E.k2 # 1 THEN R
            ELSE IF E.axis = NoAxis THEN [sh |-> [i \in 1..Len(E.A.sh) |-> 1], d |-> R.d]
            ELSE [sh |-> [E.A.sh EXCEPT ![NormAxis(E.axis, Len(E.A.sh)) + 1] = 1], d |-> R.d]
+\* reductions over several axes (E.axes: normalised, in descending order): one axis after the other
+RECURSIVE ReduceAxes(_, _, _)
+ReduceAxes(g(_), A, axes) == IF axes = <<>> THEN A ELSE ReduceAxes(g, ReduceLane(g, A, Head(axes)), Tail(axes))
 ModP(A) == IF E.kind = "fld" THEN Elem1(LAMBDA v : v % E.P, A) ELSE A
 Exact(fn) ==
   CASE fn = "add" -> Elem2(LAMBDA a, b : a + b, E.A, E.B)
@@ -46,6 +49,12 @@ Exact(fn) ==
     [] fn = "amax" -> Keep(ReduceLane(MaxSeq, E.A, E.axis))
     [] fn = "argmin" -> Keep(ReduceLane(ArgMinSeq, E.A, E.axis))
     [] fn = "argmax" -> Keep(ReduceLane(ArgMaxSeq, E.A, E.axis))
+    [] fn = "sum_t" -> ReduceAxes(SumSeq, E.A, E.axes)
+    [] fn = "prod_t" -> ReduceAxes(PrdSeqM, E.A, E.axes)
+    [] fn = "all_t" -> ReduceAxes(AllSeq, E.A, E.axes)
+    [] fn = "any_t" -> ReduceAxes(AnySeq, E.A, E.axes)
+    [] fn = "amin_t" -> ReduceAxes(MinSeq, E.A, E.axes)
+    [] fn = "amax_t" -> ReduceAxes(MaxSeq, E.A, E.axes)
     [] fn = "cumsum" -> IF E.axis = NoAxis THEN MapLane(CumSum, Flat(E.A), 0) ELSE MapLane(CumSum, E.A, E.axis)
     [] fn = "sort" -> IF E.axis = NoAxis THEN MapLane(Sorted, Flat(E.A), 0) ELSE MapLane(Sorted, E.A, E.axis)
     [] fn = "flip" -> IF E.axis = NoAxis THEN [sh |-> E.A.sh, d |-> RevSeq(E.A.d)] ELSE MapLane(RevSeq, E.A, E.axis)
